@@ -13,7 +13,8 @@ type SVal struct {
 	S    string
 	T    types.Type // Go type when the value is a Go value; nil for mathematical values
 	Sort string
-	P    *Ptr
+	P    *Ptr // location of this value (struct values embedded in the heap, fields)
+	Tgt  *Ptr // for pointer values: static description of the pointee, if known
 	TypeArg types.Type // when the expression denotes a type
 	Nil  bool
 }
@@ -159,8 +160,8 @@ func (e *Env) lookup(x *Expr) SVal {
 				if e.t.eng.specs.Sentinels[full] || e.t.eng.isSentinel(o) {
 					return SVal{S: e.t.sentinel(full), T: o.Type(), Sort: "Int"}
 				}
-				p := &Ptr{Kind: "global", Comp: "G." + full, T: o.Type()}
-				return SVal{S: e.inState(func() string { return e.t.load(p) }), T: o.Type(), Sort: e.t.sortOf(o.Type())}
+				p := e.t.globalPtr(full, o.Type())
+				return SVal{S: e.inState(func() string { return e.t.load(p) }), T: o.Type(), Sort: e.t.sortOf(o.Type()), P: p}
 			case *types.TypeName:
 				return SVal{TypeArg: o.Type()}
 			}
@@ -211,7 +212,7 @@ func (e *Env) eval(x *Expr) SVal {
 			if v.T == nil || !ok {
 				e.errf(x, "dereference of non-pointer")
 			}
-			p := v.P
+			p := v.Tgt
 			if p == nil {
 				p = e.t.ptrFromRef(v.S, pt.Elem())
 			}
@@ -333,7 +334,7 @@ func (e *Env) evalSel(x *Expr) SVal {
 	var ST types.Type
 	if pt, ok := T.Underlying().(*types.Pointer); ok {
 		ST = e.resolveT(pt.Elem())
-		p = base.P
+		p = base.Tgt
 		if p == nil {
 			p = e.t.ptrFromRef(base.S, ST)
 		}
@@ -539,6 +540,8 @@ func (e *Env) evalCall(x *Expr) SVal {
 		return SVal{S: app("err.is", a.S, b.S), Sort: "Bool"}
 	case "pow2":
 		return SVal{S: app("pow2", e.evalInt(x.Args[0])), Sort: "Int"}
+	case "shl": // shl(v, k) = v * 2^k for 0 <= k <= 255 (mathematical)
+		return SVal{S: app("mulpow2", e.evalInt(x.Args[0]), e.evalInt(x.Args[1])), Sort: "Int"}
 	case "min", "max":
 		a, b := e.evalInt(x.Args[0]), e.evalInt(x.Args[1])
 		if x.Name == "min" {
@@ -582,6 +585,18 @@ func (e *Env) evalCall(x *Expr) SVal {
 	case "upd":
 		a, i, v := e.eval(x.Args[0]), e.eval(x.Args[1]), e.eval(x.Args[2])
 		return SVal{S: app("store", a.S, i.S, v.S), Sort: a.Sort}
+	case "content": // abstract byte-string content of a slice
+		v := e.eval(x.Args[0])
+		if v.Sort != "Slice" {
+			e.errf(x, "content of non-slice")
+		}
+		return SVal{S: e.inState(func() string { return t.bytesToStr(v.S) }), Sort: "Str"}
+	case "addr": // addr(global): address of a package-level variable
+		v := e.eval(x.Args[0])
+		if v.P == nil {
+			e.errf(x, "addr of non-location")
+		}
+		return SVal{S: v.P.Ref, Sort: "Int"}
 	case "base":
 		v := e.eval(x.Args[0])
 		return SVal{S: app("s.base", v.S), Sort: "Int"}
